@@ -214,7 +214,9 @@ Experiment(triples).run(sys.argv[2], quiet=True, processes=1, maxchunksperchild=
             if len(before) < stop_at - sum(1 for _, r in case["rows"][:stop_at] if not r):
                 ctx.fail(["resume", "flushed-records-lost"], "killed while evaluating triple #%d but only %d evaluations were on disk" % (stop_at, len(before)), desc)
             again = sorted(set(calls) & set(before))
-            if again: ctx.fail(["resume", "re-evaluated", "after-kill"], "triples %s were on disk and evaluated again" % again, desc)
+            if again:
+                zero = {tuple(t) for t, r in case["rows"] if not r}      # the listed open finding (evaluations without rows are repeated) shows here as well
+                ctx.fail(["resume", "re-evaluated"] + (["zero-rows"] if all(k in zero for k in again) else []) + ["after-kill"], "triples %s were on disk and evaluated again" % again, desc)
             for f in (path, cf):
                 if os.path.exists(f): os.remove(f)
     finally:
